@@ -22,7 +22,8 @@ func TestMain(m *testing.M) {
 		"encodings (TestPubkeyBytes): identity, -s, 2s, k*s, s+s', s for a related/other message or key, random curve points, twist points outside G2, " +
 		"pk + cofactor-torsion point, all single-bit flips, off-curve pairs, every truncation, over-long, coordinates >= p; plus round trips and pairing laws. " +
 		"non-trivial = the case contains an adversarial encoding that parses to a valid curve point or a bit flip (all Sig/Pubkey cases do); for round trips / pairing " +
-		"laws non-trivial = scalar >= 2^64. distinct by (law, key, message) and, for valid-point candidates, by (family, candidate bytes)")
+		"laws non-trivial = scalar >= 2^64. Receiver-history tests: the same byte strings parsed into receivers with 10-14 generated prior histories per parse entry point " +
+		"(non-trivial = accepted well-formed point into a non-fresh receiver). distinct by (law, key, message) and, for valid-point candidates, by (family/history, candidate bytes)")
 	stats.Assume("reference = affine big.Int arithmetic for the BN256 curve / twist in internal/ref/bn256.go (p, n derived from u; generator of G2 and the hash-to-point " +
 		"taken from the implementation as scheme parameters); BLS uniqueness: for pk = sk*g2 the only G1 element s with e(s,g2)=e(H(m),pk) is sk*H(m)")
 	stats.Assume("public keys: the statement fixes the key as a group element, so a non-canonical byte string that denotes the SAME element (pk||junk, coordinate+p) is " +
@@ -216,15 +217,22 @@ type cand struct {
 
 // parse-level differential for G1: the decoder accepts only curve points and re-encodes them faithfully.
 func checkG1Parse(t fataler, b []byte) string {
+	cls, _ := checkG1ParseInto(t, new(bn.G1), "fresh", b)
+	return cls
+}
+
+// checkG1ParseInto parses b into the given receiver (whatever it held before) and checks the outcome against
+// the reference; returns the strict class and whether the decoder accepted.
+func checkG1ParseInto(t fataler, gp *bn.G1, hist string, b []byte) (string, bool) {
 	_, cls := ref.G1DecodeStrict(b)
-	var g bn.G1
+	g := gp
 	var rest []byte
 	var err error
 	var enc []byte
 	func() {
 		defer func() {
 			if r := recover(); r != nil {
-				t.Fatalf("G1.Unmarshal(%x) panicked: %v", b, r)
+				t.Fatalf("[receiver "+hist+"] G1.Unmarshal(%x) panicked: %v", b, r)
 			}
 		}()
 		rest, err = g.Unmarshal(b)
@@ -235,26 +243,26 @@ func checkG1Parse(t fataler, b []byte) string {
 	if err == nil {
 		pt, ok := ref.G1DecodeLenient(b)
 		if !ok {
-			t.Fatalf("G1.Unmarshal accepted %x, which is no curve point under any reading (%s)", b, cls)
+			t.Fatalf("[receiver "+hist+"] G1.Unmarshal accepted %x, which is no curve point under any reading (%s)", b, cls)
 		}
 		if !bytes.Equal(enc, ref.G1Encode(pt)) {
-			t.Fatalf("G1.Unmarshal(%x).Marshal() = %x, reference point %x", b, enc, ref.G1Encode(pt))
+			t.Fatalf("[receiver "+hist+"] G1.Unmarshal(%x).Marshal() = %x, reference point %x", b, enc, ref.G1Encode(pt))
 		}
 		if len(rest) != len(b)-64 {
-			t.Fatalf("G1.Unmarshal(%x) returned %d remaining bytes", b, len(rest))
+			t.Fatalf("[receiver "+hist+"] G1.Unmarshal(%x) returned %d remaining bytes", b, len(rest))
 		}
 	}
 	switch cls {
 	case ref.EncPoint, ref.EncIdentity:
 		if err != nil {
-			t.Fatalf("G1.Unmarshal rejected the canonical encoding %x (%s): %v", b, cls, err)
+			t.Fatalf("[receiver "+hist+"] G1.Unmarshal rejected the canonical encoding %x (%s): %v", b, cls, err)
 		}
 		if !bytes.Equal(enc, b) {
-			t.Fatalf("G1 round trip: %x -> %x", b, enc)
+			t.Fatalf("[receiver "+hist+"] G1 round trip: %x -> %x", b, enc)
 		}
 	case ref.EncOffCurve:
 		if err == nil {
-			t.Fatalf("G1.Unmarshal accepted the off-curve pair %x", b)
+			t.Fatalf("[receiver "+hist+"] G1.Unmarshal accepted the off-curve pair %x", b)
 		}
 	case ref.EncOutOfRange:
 		// whether the range check lives in bn256 or in groupsig is not the property's business: the
@@ -262,22 +270,27 @@ func checkG1Parse(t fataler, b []byte) string {
 		stats.Class(fmt.Sprintf("g1_parse:out_of_range:accepted=%v", err == nil))
 	case ref.EncBadLength:
 		if len(b) < 64 && err == nil {
-			t.Fatalf("G1.Unmarshal accepted %d bytes", len(b))
+			t.Fatalf("[receiver "+hist+"] G1.Unmarshal accepted %d bytes", len(b))
 		}
 	}
-	return cls
+	return cls, err == nil
 }
 
 func checkG2Parse(t fataler, b []byte) string {
+	cls, _ := checkG2ParseInto(t, new(bn.G2), "fresh", b)
+	return cls
+}
+
+func checkG2ParseInto(t fataler, gp *bn.G2, hist string, b []byte) (string, bool) {
 	_, cls := ref.G2DecodeStrict(b)
-	var g bn.G2
+	g := gp
 	var rest []byte
 	var err error
 	var enc []byte
 	func() {
 		defer func() {
 			if r := recover(); r != nil {
-				t.Fatalf("G2.Unmarshal(%x) panicked: %v", b, r)
+				t.Fatalf("[receiver "+hist+"] G2.Unmarshal(%x) panicked: %v", b, r)
 			}
 		}()
 		rest, err = g.Unmarshal(b)
@@ -288,35 +301,35 @@ func checkG2Parse(t fataler, b []byte) string {
 	if err == nil {
 		pt, ok := ref.G2DecodeLenient(b)
 		if !ok {
-			t.Fatalf("G2.Unmarshal accepted %x, which is no twist point under any reading (%s)", b, cls)
+			t.Fatalf("[receiver "+hist+"] G2.Unmarshal accepted %x, which is no twist point under any reading (%s)", b, cls)
 		}
 		if !pt.Inf && !bytes.Equal(enc, ref.G2Encode(pt)) {
-			t.Fatalf("G2.Unmarshal(%x).Marshal() = %x, reference point %x", b, enc, ref.G2Encode(pt))
+			t.Fatalf("[receiver "+hist+"] G2.Unmarshal(%x).Marshal() = %x, reference point %x", b, enc, ref.G2Encode(pt))
 		}
 		if len(rest) != len(b)-128 {
-			t.Fatalf("G2.Unmarshal(%x) returned %d remaining bytes", b, len(rest))
+			t.Fatalf("[receiver "+hist+"] G2.Unmarshal(%x) returned %d remaining bytes", b, len(rest))
 		}
 	}
 	switch cls {
 	case ref.EncPoint:
 		if err != nil {
-			t.Fatalf("G2.Unmarshal rejected the canonical encoding %x: %v", b, err)
+			t.Fatalf("[receiver "+hist+"] G2.Unmarshal rejected the canonical encoding %x: %v", b, err)
 		}
 		if !bytes.Equal(enc, b) {
-			t.Fatalf("G2 round trip: %x -> %x", b, enc)
+			t.Fatalf("[receiver "+hist+"] G2 round trip: %x -> %x", b, enc)
 		}
 	case ref.EncOffCurve:
 		if err == nil {
-			t.Fatalf("G2.Unmarshal accepted the off-curve value %x", b)
+			t.Fatalf("[receiver "+hist+"] G2.Unmarshal accepted the off-curve value %x", b)
 		}
 	case ref.EncOutOfRange:
 		stats.Class(fmt.Sprintf("g2_parse:out_of_range:accepted=%v", err == nil))
 	case ref.EncBadLength:
 		if len(b) < 128 && err == nil {
-			t.Fatalf("G2.Unmarshal accepted %d bytes", len(b))
+			t.Fatalf("[receiver "+hist+"] G2.Unmarshal accepted %d bytes", len(b))
 		}
 	}
-	return cls
+	return cls, err == nil
 }
 
 // ---------- signatures ----------
